@@ -174,6 +174,10 @@ func vpH_C10_blocks() {
 			doc.fields = append(doc.fields, &vpField{name: "b", store: true, dv: true, value: []byte{byte(d), byte(d >> 8)}, length: 1,
 				terms: []*vpTerm{{term: []byte{'t', byte('a' + d%5)}, freq: 1 + d%3}}})
 		}
+		if d == 127 {
+			// a doc-value field with no value in the last 1024-document chunk(s)
+			doc.fields = append(doc.fields, &vpField{name: "e", dv: true, length: 1, terms: []*vpTerm{{term: []byte("q"), freq: 1}}})
+		}
 		docs = append(docs, doc)
 	}
 	cs, _, err := newWithChunkMode(vpDocs(docs), vpNormCalc, 1025)
@@ -190,8 +194,8 @@ func vpH_C10_blocks() {
 			vpMust(cur.VisitStoredFields(n, func(f string, v []byte) bool { x = append(x, v...); return true }), "visit")
 			vpMust(ref.VisitStoredFields(n, func(f string, v []byte) bool { y = append(y, v...); return true }), "visit")
 			vpAssert(bytes.Equal(x, y), tag+": stored fields read identically")
-			cr, _ := cur.DocumentValueReader([]string{"b"})
-			rr, _ := ref.DocumentValueReader([]string{"b"})
+			cr, _ := cur.DocumentValueReader([]string{"b", "e"})
+			rr, _ := ref.DocumentValueReader([]string{"b", "e"})
 			var p, q []byte
 			vpMust(cr.VisitDocumentValues(n, func(f string, t []byte) { p = append(p, t...) }), "dv")
 			vpMust(rr.VisitDocumentValues(n, func(f string, t []byte) { q = append(q, t...) }), "dv")
